@@ -399,9 +399,14 @@ def replay(cfg, cex):
                     tt = open(os.path.join(td, "transform.json")).read()
                 except OSError as e:
                     return True, f"run {k} (rc={rc}): {e}"
-                if _pair_consistent(it, tt) is None:
+                from fractions import Fraction
+                got = _pair_consistent(it, tt)
+                known = []
+                for vs2, t2 in cfg["volumes"][:k + 1]:
+                    known.append([[Fraction(vs2[r]) if c == r else Fraction(0) for c in range(3)] + [Fraction(t2[r])] for r in range(3)])
+                if got is None or got not in known:
                     return True, (f"after run {k} (rc={rc}) info_fullres.json states resolution {json.loads(it)['scales'][0]['resolution']} "
-                                  f"but transform.json {tt} places another volume")
+                                  f"and transform.json is {tt}: together they place a volume that is none of those given")
         return False, "stored pairs stay consistent on the real code"
     if cfg["harness"] == "reprmodel":
         bad = cex["inputs"].get("bad")
